@@ -244,24 +244,82 @@ def walk_rule(chk):
         recursive_walk(chk, mi, q)
         return
     chk.ok("C08.R5", f"{mi.rel}:{q.lineno}", "quantize iterates model.named_modules()")
-    name, m = [U(x) for x in loops[0].target.elts]
-    body = loops[0].body
-    # filter
-    flt = [n for n in body if isinstance(n, ast.If) and any(isinstance(x, ast.Continue) for x in n.body)]
-    ok_f = len(flt) == 1 and U(flt[0].test) in (f"{modules} is not None and {m} not in {modules}",)
-    chk.require("C08.R5", f"{mi.rel}:{q.lineno}", ok_f, f"quantize skips exactly the modules outside the optional filter (`{U(flt[0].test) if flt else None}`)", "quantize", "module filter", "quantize(model, modules=[...]): a listed module is skipped or an unlisted one replaced")
-    calls = [n for n in ast.walk(loops[0]) if isinstance(n, ast.Call) and U(n.func) == "quantize_module"]
-    ok_c = len(calls) == 1 and [U(a) for a in calls[0].args] == [m] and [(k.arg, U(k.value)) for k in calls[0].keywords] == [(None, kwn)]
-    chk.require("C08.R5", f"{mi.rel}:{q.lineno}", ok_c, "quantize builds the twin with quantize_module(m, **kwargs)", "quantize", "kwargs forwarded", "quantize(model, weights=..., activations=...): configuration dropped")
-    sets = [n for n in ast.walk(loops[0]) if isinstance(n, ast.Call) and U(n.func) == "set_module_by_name"]
-    ok_s = len(sets) == 1 and [U(a) for a in sets[0].args] == [model, name, "qmodule"]
-    guard = [n for n in body if isinstance(n, ast.If) and U(n.test) == "qmodule is not None" and any(sets and s in list(ast.walk(n)) for s in sets)]
-    chk.require("C08.R5", f"{mi.rel}:{q.lineno}", ok_s and len(guard) == 1, "quantize replaces through set_module_by_name(model, name, qmodule) only when qmodule is not None", "quantize", "replacement guarded", "an ineligible module is replaced by None / an eligible one is not replaced")
-    # other writes to the model inside the walk
-    stores = [U(n.targets[0]) for n in ast.walk(loops[0]) if isinstance(n, ast.Assign) and isinstance(n.targets[0], ast.Attribute)]
-    setattrs = [U(n) for n in ast.walk(loops[0]) if isinstance(n, ast.Call) and U(n.func) == "setattr"]
-    ok_w = all(s.startswith("qmodule.") for s in stores) and all(s.startswith(f"setattr({m}, ") and s.endswith(", None)") for s in setattrs)
-    chk.require("C08.R5", f"{mi.rel}:{q.lineno}", ok_w, f"inside the walk only the new twin is annotated and the replaced module's parameters are cleared (stores {stores}, setattr {setattrs})", "quantize", "other writes", "modules other than the replaced ones are altered")
+    name_v, m_v = [U(x) for x in loops[0].target.elts]
+    site = f"{mi.rel}:{q.lineno}"
+    bps = loop_body_paths(q, loops[0])
+    if not bps:
+        chk.unknown("C08.R5", site, "quantize: the body of the walk has no feasible path")
+        return
+    name, m = U(bps[0].env[name_v]), U(bps[0].env[m_v])
+
+    def calls_of(pth, fname):
+        out = []
+        for ef in pth.effects:
+            for x in ef:
+                if isinstance(x, ast.AST):
+                    out.extend(n for n in ast.walk(x) if isinstance(n, ast.Call) and U(n.func) == fname)
+        for c, _, _ in pth.conds:
+            out.extend(n for n in ast.walk(c) if isinstance(n, ast.Call) and U(n.func) == fname)
+        seen, uniq = set(), []
+        for n in out:
+            if U(n) not in seen:
+                seen.add(U(n))
+                uniq.append(n)
+        return uniq
+
+    A, B = f"{modules} is not None", f"{m} not in {modules}"
+
+    def filtered_out(f):
+        """True: the path has established that the module is outside the filter; False: that it is inside (or no filter); None: untested."""
+        a, b_, ab = f.get(A), f.get(B), f.get(f"{A} and {B}")
+        if (a is True and b_ is True) or ab is True:
+            return True
+        if a is False or b_ is False or ab is False or f.get(f"{modules} is None") is True or f.get(f"{m} in {modules}") is True:
+            return False
+        return None
+
+    ok_f = ok_c = ok_s = ok_g = ok_w = True
+    n_build = n_skip = 0
+    detail_f = ""
+    for pth in bps:
+        f = path_facts(pth)
+        qcalls = calls_of(pth, "quantize_module")
+        sets = calls_of(pth, "set_module_by_name")
+        fo = filtered_out(f)
+        if qcalls:
+            n_build += 1
+            if fo is not False:
+                ok_f, detail_f = False, f"a twin is built on a path where the filter outcome is {fo} ({' & '.join(pth.cond_texts())[:120]})"
+            if not (len(qcalls) == 1 and [U(a_) for a_ in qcalls[0].args] == [m] and [(k.arg, U(k.value)) for k in qcalls[0].keywords] == [(None, kwn)]):
+                ok_c = False
+            qm_txt = U(qcalls[0])
+            built = f.get(f"{qm_txt} is not None")
+            if sets:
+                ok_s = ok_s and len(sets) == 1 and [U(a_) for a_ in sets[0].args] == [model, name, qm_txt]
+                ok_g = ok_g and built is True
+            else:
+                ok_g = ok_g and built is False
+            # other writes on this path: only the new twin is annotated, only the replaced module's parameters are cleared
+            for ef in pth.effects:
+                if ef[0] == "store" and U(ef[1]) != qm_txt:
+                    ok_w = False
+                if ef[0] in ("substore", "augstore"):
+                    ok_w = False
+                if ef[0] == "expr" and isinstance(ef[1], ast.Call) and U(ef[1].func) == "setattr":
+                    a_ = [U(z) for z in ef[1].args]
+                    if not (len(a_) == 3 and a_[0] == m and a_[2] == "None" and sets):
+                        ok_w = False
+        else:
+            n_skip += 1
+            if sets:
+                ok_s = False
+            if fo is not True:
+                # a path that builds nothing must be a filtered-out module
+                ok_f, detail_f = False, f"a module is skipped on a path where the filter outcome is {fo} ({' & '.join(pth.cond_texts())[:120]})"
+    chk.require("C08.R5", site, ok_f and n_build >= 1, f"quantize skips exactly the modules outside the optional filter ({detail_f or f'{n_build} building path(s), {n_skip} skipping'})", "quantize", "module filter", "quantize(model, modules=[...]): a listed module is skipped or an unlisted one replaced")
+    chk.require("C08.R5", site, ok_c and n_build >= 1, "quantize builds the twin with quantize_module(m, **kwargs)", "quantize", "kwargs forwarded", "quantize(model, weights=..., activations=...): configuration dropped")
+    chk.require("C08.R5", site, ok_s and ok_g, "quantize replaces through set_module_by_name(model, name, qmodule) exactly when qmodule is not None", "quantize", "replacement guarded", "an ineligible module is replaced by None / an eligible one is not replaced")
+    chk.require("C08.R5", site, ok_w, "inside the walk only the new twin is annotated and the replaced module's parameters are cleared", "quantize", "other writes", "modules other than the replaced ones are altered")
     # set_module_by_name
     mi2, sm = repo.func("set_module_by_name")
     par, nm, child = positional_params(sm)[:3]
@@ -452,19 +510,35 @@ def forward_rule(chk, qm):
             site = f"{qci.mod.rel}:{p.end[2]}"
             e = U(p.end[1])
             if tname == "torch.nn.LayerNorm":
-                want = f"torch.nn.functional.layer_norm({x}, self.normalized_shape, self.weight, self.bias, self.eps)"
-                ok = e == want and fsig[:5] == ["input", "normalized_shape", "weight", "bias", "eps"]
+                got = _bind_functional(p.end[1], "torch.nn.functional.layer_norm", fsig)
+                ok = got == {"input": x, "normalized_shape": "self.normalized_shape", "weight": "self.weight", "bias": "self.bias", "eps": "self.eps"} and fsig[:5] == ["input", "normalized_shape", "weight", "bias", "eps"]
                 chk.require("C08.R6", site, ok, f"QLayerNorm.qforward = F.layer_norm(input, normalized_shape, weight, bias, eps) in the functional's order: `{e[:100]}`", f"{qci.name}.qforward", "layer_norm arguments", "any LayerNorm: weight/bias/eps swapped")
                 continue
             act = f.get("self.activation_qtype is None") is False
             isq = f.get(f"isinstance({x}, QBytesTensor)")
             arg = f"quantize_activation({x}, qtype=self.activation_qtype, scale=self.input_scale)" if (act and isq is False) else x
             if tname == "torch.nn.Linear":
-                want = [f"torch.nn.functional.linear({arg}, self.qweight, bias=self.bias)", f"torch.nn.functional.linear({arg}, self.qweight, self.bias)"]
+                got = _bind_functional(p.end[1], "torch.nn.functional.linear", ["input", "weight", "bias"])
+                okq = got == {"input": arg, "weight": "self.qweight", "bias": "self.bias"}
             else:
-                want = [f"self._conv_forward({arg}, self.qweight, self.bias)"]
-            chk.require("C08.R6", site, e in want, f"{qci.name}.qforward (activations={act}, quantized input={isq}): `{e[:120]}`", f"{qci.name}.qforward", f"qforward term act={act} isq={isq}",
+                got = _bind_functional(p.end[1], "self._conv_forward", ["input", "weight", "bias"])
+                okq = got == {"input": arg, "weight": "self.qweight", "bias": "self.bias"}
+            chk.require("C08.R6", site, okq, f"{qci.name}.qforward (activations={act}, quantized input={isq}): `{e[:120]}`", f"{qci.name}.qforward", f"qforward term act={act} isq={isq}",
                         "a float input with quantized activations is not quantized with input_scale, or the float weight / another bias is used")
+
+
+def _bind_functional(e, fname, sig):
+    """{parameter: canonical argument text} of a call to `fname` bound against the positional signature `sig` (None if another call)."""
+    if not (isinstance(e, ast.Call) and U(e.func) == fname) or any(isinstance(a, ast.Starred) for a in e.args) or any(k.arg is None for k in e.keywords):
+        return None
+    if len(e.args) > len(sig):
+        return None
+    out = {n: U(a) for n, a in zip(sig, e.args)}
+    for k in e.keywords:
+        if k.arg in out:
+            return None
+        out[k.arg] = U(k.value)
+    return out
 
 
 def functional_signature(name):
